@@ -34,7 +34,8 @@ META = {
         "Decides the growth class of matching time, not its constant."
         ' Also: reduce_whitespace repeats its substitutions until stable whenever they feed each other (decided on the constant patterns), fix-point loops compare one pass with the next (tri-state), scan cursors advance on every path (path-sensitive).'
         ' Round 8: every return of plss_preprocess went through reduce_whitespace.'
-        ' Round 9: pass_back_halves makes progress (no oscillating fix point).'),
+        ' Round 9: pass_back_halves makes progress (no oscillating fix point).'
+        ' Round 10: every description staged in _parse_meaningful is a cleanup_desc() result (keeps trailing separator runs, on which the list patterns are exponential, away from the Tract parser).'),
     'assumptions': [
         "sre is a backtracking matcher whose work is bounded by the number of "
         "distinct paths of the position automaton on the input",
@@ -107,6 +108,7 @@ def check(ctx):
     ctx.attempt(_grow)
     ctx.attempt(_whitespace_normal_form)
     ctx.attempt(_whitespace_before_everything)
+    ctx.attempt(_staged_desc_is_cleaned)
     from .c02 import pass_back_makes_progress       # a pass that undoes itself never reaches the fixed point
     ctx.attempt(pass_back_makes_progress)
     ctx.attempt(_fixpoint)
@@ -387,6 +389,49 @@ def _whitespace_before_everything(ctx):
                              f"backtrack polynomially or worse", key="FIXPOINT|plss_preprocess|unreduced-return",
                   where=common.loc(fi, r))
     ctx.floor('returns of plss_preprocess', n, 1)
+
+
+def _staged_desc_is_cleaned(ctx):
+    """The lot / section list patterns are exponential on a run of separators
+    that is not followed by a number (known finding RX-AMB multilot_regex /
+    multisec_regex: ', , , , x').  What keeps such a run from reaching the
+    Tract parser is that the description block staged for a tract goes
+    through cleanup_desc(), which strips trailing separators, on EVERY path -
+    whatever `clean_up` says.  A staged description that can arrive without it
+    re-opens the blow-up for `clean_up=False` ('Lot 1' + ', ' * 24)."""
+    n = 0
+    for fi in ctx.repo.funcs.values():
+        if not fi.fullname.split(':')[-1].startswith('ChunkParser._parse_meaningful'):
+            continue
+        cfg, rd = flow.analyse(fi.node)
+        for c in walk_local(fi.node):
+            if not (isinstance(c, ast.Call) and (dotted(c.func) or '').split('.')[-1] == '_stage_new_tract' and c.args):
+                continue
+            arg = c.args[0]
+            if not isinstance(arg, ast.Name):
+                pv = flow.provenance(fi.node, arg)
+                ok = any(x.split('.')[-1] == 'cleanup_desc' for x in flow.prov_calls(pv))
+                n += 1
+                ctx.shape(ok, 'FIXPOINT', f"{fi.qualname}: the staged description went through cleanup_desc()",
+                          why=f"`{norm(arg)[:40]}` is not a plain name; paths not followed")
+                continue
+            at = flow.stmt_node(cfg, c)
+            ds = rd.reaching(at, arg.id)
+            raw = []
+            for d in ds:
+                val = rd.defs[d]
+                cleaned = isinstance(val, ast.Call) and (dotted(val.func) or '').split('.')[-1] == 'cleanup_desc'
+                if not cleaned:
+                    raw.append(d)
+            n += 1
+            ctx.check(not raw, 'FIXPOINT', f"{fi.qualname}: the staged description went through cleanup_desc() on every path",
+                      f"{len(ds)} reaching definition(s)",
+                      f"`{norm(c)[:60]}` can receive `{arg.id}` as "
+                      f"{'it was handed in' if any(d[0] == 'param' for d in raw) else 'assigned without cleanup_desc()'}: a block that "
+                      f"ends in a run of separators ('Lot 1, , , , , , , ,') then reaches the Tract parser, where multilot_regex / "
+                      f"multisec_regex try every way of splitting the run before failing (exponential; see the known RX-AMB findings)",
+                      key=f"FIXPOINT|{fi.qualname}|staged-desc-uncleaned", where=common.loc(fi, c))
+    ctx.floor('staging calls in _parse_meaningful', n, 1)
 
 
 def _whitespace_normal_form(ctx):
